@@ -411,6 +411,16 @@ def resume_case(desc, ks: Optional[List[int]] = None) -> List[Tuple[str, str]]:
                 bad.append(("ko_resume", f"k={k}: loading the same state dict a second time gives a different continuation"))
             elif _pk(sd) != before:
                 bad.append(("ko_resume", f"k={k}: the state dict was modified by loading it / by the run continuing"))
+            if not bad and k in (0, 1, len(items) // 2, len(items)):
+                # seeding: a reset() WITHOUT state right after a load (no item requested in between) starts the loaded
+                # epoch over - the epoch's own sequence from its first draw, not a continuation of the checkpoint
+                fresh = build(desc)
+                fresh.reset(sd)
+                fresh.reset()
+                again = drain(fresh, kidx, desc, cap)
+                if again != full:
+                    d = next((i for i, (a, b) in enumerate(zip(again, full)) if a != b), min(len(again), len(full)))
+                    bad.append(("ko_reset_after_load", f"k={k}: reset(state); reset(): the restarted epoch differs from the epoch's own sequence at item {d}: {again[d:d + 4]} vs {full[d:d + 4]}"))
             if bad:
                 break
     except Exception as e:
